@@ -78,8 +78,10 @@ pub fn kinds() -> Vec<Kind> {
         rvals: vec![svals(&["alice", "bob"]), svals(&paths), svals(&["GET", "POST"])], links: vec![], tbl: vec![] });
     v.push(Kind { name: "keymatch3-4-5", rt: sv(&["sub", "obj", "act"]), pt: sv(&["sub", "obj", "act"]), g: vec![],
         m: and(and(eq(r(0), p(0)), or(or(Ex::Call2(s("keyMatch3"), b(r(1)), b(p(1))), Ex::Call2(s("keyMatch4"), b(r(1)), b(p(1)))), Ex::Call2(s("keyMatch5"), b(r(1)), b(p(1))))), eq(r(2), p(2))),
-        pvals: vec![sv(&["alice", "bob"]), sv(&["/data/{id}", "/res/{id}/sub", "/res/*", "/{a}/{a}"]), sv(&["GET", "POST"])],
-        rvals: vec![svals(&["alice", "bob"]), svals(&["/data/1", "/res/7/sub", "/res/7?x=1", "/a/a", "/a/b", "/other"]), svals(&["GET", "POST"])], links: vec![], tbl: vec![] });
+        // the colon patterns of the keyMatch2 kind appear here too: for these three matchers `:id` is literal text, whatever
+        // another matcher made of the same pattern earlier in the process
+        pvals: vec![sv(&["alice", "bob"]), sv(&["/data/{id}", "/res/{id}/sub", "/res/*", "/{a}/{a}", "/data/:id", "/res/:id/sub"]), sv(&["GET", "POST"])],
+        rvals: vec![svals(&["alice", "bob"]), svals(&["/data/1", "/res/7/sub", "/res/7?x=1", "/a/a", "/a/b", "/other", "/data/:id"]), svals(&["GET", "POST"])], links: vec![], tbl: vec![] });
     // rule-in-policy eval: the first policy field is an expression over the request
     let rule_exprs: Vec<Ex> = vec![
         eq(Ex::Attr(b(r(0)), s("Name")), Ex::LitS(s("alice"))),
@@ -241,7 +243,10 @@ pub fn run(rec: &mut Recorder, w: &mut World, tier: &str, seed: u64) {
                 // every fourth configuration is asked through enforce_with_context("2") on a copy of the sections under
                 // r2/p2/e2/m2 holding the rules (the reference semantics are the same)
                 let ctx = it % 4 == 3 && k.name != "eval";
-                let mut m = model_of(k, eff, with_eft, "", false);
+                // ... and in half of those the plain sections carry *another* effect rule than the suffixed ones: the decision is
+                // that of the sections the context names (e2), whatever `e` says
+                let plain_eff = if ctx && rng.chance(1, 2) { rec.count("asked-through:enforce_with_context:plain-effect-differs"); let o = EFFECTS[(EFFECTS.iter().position(|x| x.1 == *eff).unwrap() + 1 + rng.below(3)) % 4].1; o } else { *eff };
+                let mut m = model_of(k, plain_eff, with_eft, "", false);
                 if ctx { let b2 = model_of(k, eff, with_eft, "2", rng.chance(1, 2)); m.r.extend(b2.r); m.p.extend(b2.p); m.e.extend(b2.e); m.m.extend(b2.m); rec.count("asked-through:enforce_with_context"); }
                 // now and then the effect column is not the last one: a further column follows it
                 let note = with_eft && rng.chance(1, 5);
